@@ -7,8 +7,10 @@ import "unsafe"
 // RaceBuild reports whether the binary was built with -race.
 const RaceBuild = false
 
-func raceDisable()                      {}
-func raceEnable()                       {}
-func raceErrors() int                   { return 0 }
-func raceAcquire(p unsafe.Pointer)      {}
-func raceReleaseMerge(p unsafe.Pointer) {}
+func raceDisable()                           {}
+func raceEnable()                            {}
+func raceErrors() int                        { return 0 }
+func raceAcquire(p unsafe.Pointer)           {}
+func raceReleaseMerge(p unsafe.Pointer)      {}
+func raceReadRange(p unsafe.Pointer, n int)  {}
+func raceWriteRange(p unsafe.Pointer, n int) {}
